@@ -102,3 +102,7 @@ Definition ecase_show_b (c : ecase) :=
    cases as a cross-check of the statement that is proved *)
 Definition models_differ (c : ecase) : bool :=
   negb (list_eqb step_eqb (map forget_hj_step (ecase_model c)) (map forget_hj_step (ecase_model_b c))).
+
+(* one pass over the generated browser cases: anything to look at?  (the harness then evaluates the three tests one by
+   one on the flagged cases to say which it was) *)
+Definition browser_case_bad (c : ecase) : bool := ecase_bad_b c || ecase_bad_browser c || models_differ c.
